@@ -11,24 +11,31 @@
 (* nested dict).                                                           *)
 (*   Fill(c)   the producer creates (data, c); cur := its context object   *)
 (*   Compute   Count first writes its own key into cur (in place, as the   *)
-(*             code does); the yielded context is copy.deepcopy(cur)       *)
-(*             (CopyOnCompute = TRUE, the code) or cur itself (FALSE: the  *)
-(*             defect of Histogram / VarianceMeanCount before their fix)   *)
+(*             code does); every one of the kind.nres results of the call  *)
+(*             carries copy.deepcopy(cur) (CopyOnCompute = "each", the     *)
+(*             code), one copy shared by the results of the call ("once":  *)
+(*             a deepcopy hoisted out of the yield loop) or cur itself     *)
+(*             ("none": Histogram / VarianceMeanCount before their fix)    *)
 (*   Mutate(j) the consumer changes res[j] in place                        *)
 (* (reset() is left to C09.)                                               *)
 (* Fresh: res[j] shares no object with any filled context nor with an      *)
 (* earlier result.  MutateIsLocal (frame property): a Mutate changes only  *)
 (* res[j]: not the producer's values, not the other results, not what the  *)
-(* next compute() yields.  With CopyOnCompute = FALSE TLC refutes both     *)
-(* (Alias_nocopy.cfg, sensitivity guard).                                  *)
+(* next compute() yields.  With CopyOnCompute = "none" TLC refutes both,   *)
+(* with "once" it refutes Fresh between the results of one call            *)
+(* (Alias_nocopy*.cfg, Alias_once.cfg: sensitivity guards).                *)
 (***************************************************************************)
 EXTENDS Heap, Json
 
 CONSTANTS MaxLen, CopyOnCompute
 
-Plain == [t |-> "plain", name |-> ""]
-CountK == [t |-> "count", name |-> "count"]
-AKinds == {Plain, CountK}
+\* nres: number of results of one compute() / request() call (SplitIntoBins, Vectorize, Split or Zip of
+\* accumulators, FillRequest over such elements, Mean with a multi-result sum_seq yield several);
+\* every one of them carries its own copy of the stored context
+Plain == [t |-> "plain", name |-> "", nres |-> 1]
+Plain2 == [t |-> "plain", name |-> "", nres |-> 2]
+CountK == [t |-> "count", name |-> "count", nres |-> 1]
+AKinds == {Plain, Plain2, CountK}
 CtxVals == {[a |-> 1], [a |-> 2, n |-> [b |-> 1]], [k |-> 1, n |-> [b |-> 3], output |-> [filename |-> "f"]]}
 Muts == {Inc("a"), SetK("z", 9), SetN("n", "b", 7), MakeFn("g"), SetN("variable", "name", 5)}
 Del(c, ks) == [x \in (DOMAIN c) \ ks |-> c[x]]
@@ -53,10 +60,23 @@ FillA(c) == /\ LET r == AllocVal(M, [d |-> <<1>>, c |-> c]) IN
             /\ UNCHANGED <<kind, res>>
 \* what compute() would yield now (the context, as a pure value)
 YieldNow(MM, cid, n) == LET c == SnapCtx(MM.h, cid) IN IF kind.t = "count" THEN Put(c, kind.name, n) ELSE c
+\* the contexts of the results of one call: [M, ids]
+RECURSIVE YieldCopies(_, _, _, _)
+YieldCopies(MM, cid, k, first) ==
+  IF k = 0 THEN [M |-> MM, ids |-> <<>>]
+  ELSE CASE CopyOnCompute = "each" ->          \* the code: copy.deepcopy for every result
+              LET r == DeepCopyCtx(MM, cid)  rest == YieldCopies(r.M, cid, k - 1, first)
+              IN [M |-> rest.M, ids |-> <<r.id>> \o rest.ids]
+         [] CopyOnCompute = "once" ->          \* one copy per call, shared by its results
+              IF first = 0 THEN LET r == DeepCopyCtx(MM, cid)  rest == YieldCopies(r.M, cid, k - 1, r.id)
+                                IN [M |-> rest.M, ids |-> <<r.id>> \o rest.ids]
+              ELSE LET rest == YieldCopies(MM, cid, k - 1, first) IN [M |-> rest.M, ids |-> <<first>> \o rest.ids]
+         [] OTHER ->                           \* "none": the stored context itself
+              LET rest == YieldCopies(MM, cid, k - 1, first) IN [M |-> rest.M, ids |-> <<cid>> \o rest.ids]
 ComputeA == /\ LET M1 == IF kind.t = "count" THEN HSetKey(M, cur, kind.name, nf) ELSE M
-                   r == IF CopyOnCompute THEN DeepCopyCtx(M1, cur) ELSE [M |-> M1, id |-> cur]
+                   r == YieldCopies(M1, cur, kind.nres, 0)
                IN /\ M' = r.M
-                  /\ res' = Append(res, [c |-> r.id, x |-> SnapCtx(r.M.h, r.id)])
+                  /\ res' = res \o [j \in 1..Len(r.ids) |-> [c |-> r.ids[j], x |-> SnapCtx(r.M.h, r.ids[j])]]
             /\ op' = "compute" /\ mj' = 0 /\ UNCHANGED <<kind, src, srcx, cur, nf>>
 MutCtx(MM, cid, mu) ==
   CASE mu.t = "inc" -> HSetKey(MM, cid, mu.key, (IF mu.key \in DOMAIN MM.h[cid].m THEN MM.h[cid].m[mu.key] ELSE 0) + 1)
@@ -93,7 +113,8 @@ ResultsStable == \A j \in 1..Len(res) : SnapCtx(M.h, res[j].c) = res[j].x
 SourceIntact == \A i \in 1..Len(src) : Del(SnapCtx(M.h, src[i].c), Own(kind)) = Del(srcx[i], Own(kind))
 \* compute() yields the context of the last filled value whatever happened to earlier results
 YieldsLast == op = "compute" =>
-   Del(res[Len(res)].x, Own(kind)) = Del((IF nf = 0 THEN <<>> ELSE srcx[Len(srcx)]), Own(kind))
+   \A j \in (Len(res) - kind.nres + 1)..Len(res) :
+      Del(res[j].x, Own(kind)) = Del((IF nf = 0 THEN <<>> ELSE srcx[Len(srcx)]), Own(kind))
 
 Emitted == (Len(h) = MaxLen) => PrintT(ToJson([kind |-> kind, h |-> h]))
 =============================================================================
